@@ -290,7 +290,7 @@ theorem C18S_split_join (d : List Char) (hd : d ≠ []) :
       omega
 
 /-- the same through `splitOnS` (Python's `s.split(d)`) -/
-theorem C18S_split_join' (d : List Char) (hd : d ≠ []) (fields : List (List Char)) (hne : fields ≠ [])
+theorem C18S_split_join_opt (d : List Char) (hd : d ≠ []) (fields : List (List Char)) (hne : fields ≠ [])
     (hf : ∀ f ∈ fields, ∀ c ∈ f, c ∉ d) : splitOnS d (d.intercalate fields) = some fields := by
   unfold splitOnS
   have : d.isEmpty = false := by cases d with | nil => exact absurd rfl hd | cons _ _ => rfl
